@@ -146,7 +146,19 @@ func c10Near(c *fw.Ctx, idx int) {
 	r := c.R
 	var o, e [2]float64
 	diag := false
-	switch r.Intn(7) {
+	dec := -1
+	switch r.Intn(10) {
+	case 7, 8, 9:
+		// short decimals (coordinates as people write them: metres with centimetres,
+		// degrees with five places): collinear in decimal, which binary cannot say
+		// exactly, so the differences round and the determinant is all rounding error
+		dec = r.Range(1, 6)
+		sc := math.Pow(10, float64(dec))
+		mag := math.Pow(10, float64(r.Range(0, 6)))
+		d := func() float64 { return math.Round((r.Float01()*2-1)*mag*sc) / sc }
+		o = [2]float64{d(), d()}
+		e = [2]float64{d(), d()}
+		c.Count("short_decimal_segments")
 	case 6:
 		// the segment runs along a diagonal or an axis to within a few units in the
 		// last place: e = o + (n, n+j) ulps (or (n, j), (j, n)) with n up to 2^54 and
@@ -210,6 +222,14 @@ func c10Near(c *fw.Ctx, idx int) {
 	}
 	px := o[0] + t*(e[0]-o[0])
 	py := o[1] + t*(e[1]-o[1])
+	if dec >= 0 {
+		// a point of the decimal lattice on (or a last digit off) the decimal line:
+		// o + k/m (e - o) with small k, m, written with a few more digits
+		k, m := float64(r.Range(-20, 40)), float64([]int{1, 2, 4, 5, 8, 10, 20, 25}[r.Intn(8)])
+		sc := math.Pow(10, float64(dec+r.Intn(3)))
+		px = math.Round((o[0]+k/m*(e[0]-o[0]))*sc) / sc
+		py = math.Round((o[1]+k/m*(e[1]-o[1]))*sc) / sc
+	}
 	for _, v := range []float64{o[0], o[1], e[0], e[1], px, py} {
 		if v != 0 && (math.Abs(v) < 1e-100 || math.Abs(v) > 1e100) || math.IsInf(v, 0) || math.IsNaN(v) {
 			c.Count("skipped_out_of_band")
